@@ -24,9 +24,9 @@ for name in sorted(os.listdir(sd)):
             t0 = time.time()
             per_seed = {}
             b = []
-            for sd in seeds:
-                r = sh(f"cd {VERIF} && VERIF_SEED={sd} VERIF_REPO={wt} VERIF_EVIDENCE_DIR={wt}/.ev ./run {prop} --tier {tier}")
-                per_seed[sd] = r.returncode == 1 and "VIOLATION" in r.stdout
+            for seed_v in seeds:
+                r = sh(f"cd {VERIF} && VERIF_SEED={seed_v} VERIF_REPO={wt} VERIF_EVIDENCE_DIR={wt}/.ev ./run {prop} --tier {tier}")
+                per_seed[seed_v] = r.returncode == 1 and "VIOLATION" in r.stdout
                 b = b or [l.strip()[7:] for l in r.stdout.splitlines() if l.strip().startswith("bucket=")]
             out[prop] = {"exit": r.returncode, "detected": all(per_seed.values()), "per_seed": per_seed, "buckets": b[:5], "tier": tier, "wall_s": round(time.time() - t0, 1)}
         meta["recheck"] = {"repo_head": sh("git -C /repo log --format=%h -1").stdout.strip(), "verif_head": sh(f"git -C {VERIF} log --format=%h -1").stdout.strip(), "results": out}
